@@ -341,7 +341,10 @@ def run(ctx):
     _report(ctx, traces, rej)
     bad = {x.idx for x in rej}
     good = [t for i, t in enumerate(traces) if i not in bad and sum(1 for e in t["ev"] if e["e"] == "req") >= 2]
-    ctx.selftest_rejects("RedirectTrace", good[::max(1, len(good) // 80)], mutate, n=24)
+    if good or not ctx.violations:
+        ctx.selftest_rejects("RedirectTrace", good[::max(1, len(good) // 80)], mutate, n=24)
+    else:
+        ctx.log("selftest skipped: no accepted run to corrupt (violations reported above)")
 
 
 def replay(ctx, obj):
